@@ -638,6 +638,8 @@ func (e *enc) loopHeader(fr *frame, h *ssa.BasicBlock) {
 	if ls.rangeIdx == nil {
 		ls.countIdx, ls.countGuard = countedLoop(fr, h, body)
 	}
+	ls.entryPhi = entryVals
+	ls.memEntry = copyMem(e.mem)
 	// map range: the ghost set of visited keys (empty on entry)
 	for _, in := range h.Instrs {
 		if nx, ok := in.(*ssa.Next); ok && !nx.IsString {
